@@ -25,7 +25,7 @@ func verifMinterKeeper() Keeper {
 // ---- state
 
 func verifFreshState(s verifSched) types.MinterState {
-	return types.MinterState{SequenceId: 1, AmountMinted: sdk.ZeroInt(), RemainderToMint: sdk.ZeroDec(),
+	return types.MinterState{SequenceId: verifSeq(0), AmountMinted: sdk.ZeroInt(), RemainderToMint: sdk.ZeroDec(),
 		RemainderFromPreviousMinter: sdk.ZeroDec(), LastMintBlockTime: s.params.StartTime}
 }
 
@@ -43,7 +43,7 @@ func verifInvState(s verifSched, k int, K int64) types.MinterState {
 	minted := verif_int_range("minted", "0", "1e40")
 	f := s.params.Minters[k].AmountToMint(verifLogger{}, s.starts[k], tl)
 	verif_assume(minted.LTE(f.Add(carry).TruncateInt()))
-	return types.MinterState{SequenceId: uint32(k + 1), AmountMinted: minted, RemainderToMint: verif_dec_range("rtm", "0", "999999999999999999"),
+	return types.MinterState{SequenceId: verifSeq(k), AmountMinted: minted, RemainderToMint: verif_dec_range("rtm", "0", "999999999999999999"),
 		RemainderFromPreviousMinter: carry, LastMintBlockTime: tl}
 }
 
@@ -73,6 +73,7 @@ func verifSizes() (nmax int, K int64) {
 // O3 + O4: from the fresh state, one block at any T: minted = floor(sum of finished periods + current period's emission at T),
 // every finished linear period has minted exactly its amount, carry is the fractional part.
 func Verif_C02_reference_from_fresh() {
+	vFirstIds = []uint32{1, 4} // the schedule does not depend on where the numbering of the periods starts
 	nmax, K := verifSizes()
 	n := verif_choice("n", nmax) + 1
 	kinds := verifKinds(n, verif_choice("kinds", verifKindCount(n)))
@@ -104,11 +105,11 @@ func Verif_C02_reference_from_fresh() {
 	verif_assert(amt.Equal(total.Quo(vE18)), "minted(T) = integer part of the schedule's cumulative emission")
 	verif_assert(verifCollected().Equal(amt), "collector received exactly the minted amount")
 	st := k.GetMinterState(ctx)
-	verif_assert(st.SequenceId == uint32(cur+1), "state points at the period containing T")
+	verif_assert(st.SequenceId == verifSeq(cur), "state points at the period containing T")
 	verif_assert(st.LastMintBlockTime.Equal(T), "state advanced to T")
 	verif_assert(verif_dec_rawint(st.RemainderToMint).Equal(total.Sub(total.Quo(vE18).Mul(vE18))), "remainder = fractional part of cumulative emission")
 	for i := 0; i < cur; i++ {
-		h, found := k.GetMinterStateHistory(ctx, uint32(i+1))
+		h, found := k.GetMinterStateHistory(ctx, verifSeq(i))
 		verif_assert(found, "finished period has a history entry")
 		if kinds[i] == kLin {
 			cfg := s.params.Minters[i].Config.GetCachedValue().(*types.LinearMinting)
@@ -127,6 +128,7 @@ func Verif_C02_reference_from_fresh() {
 // blocks t1,t2 and the single block t2 end in the same state and have minted the same total. The post-state satisfies
 // Inv_m with equality, no block is skipped as "negative".
 func Verif_C02_step_from_inv() {
+	vFirstIds = []uint32{1, 4} // the schedule does not depend on where the numbering of the periods starts
 	nmax, K := verifSizes()
 	n := verif_choice("n", nmax) + 1
 	kinds := verifKinds(n, verif_choice("kinds", verifKindCount(n)))
@@ -171,7 +173,7 @@ func Verif_C02_step_from_inv() {
 		}
 		if e != nil && !T.Before(*e) {
 			X := s.refCum(j, *e).Add(c)
-			h, found := k.GetMinterStateHistory(ctx, uint32(j+1))
+			h, found := k.GetMinterStateHistory(ctx, verifSeq(j))
 			verif_assert(found, "finished period has a history entry")
 			verif_assert(h.AmountMinted.Equal(X.Quo(vE18)), "finished period minted trunc(F + carry) in total")
 			returned = returned.Add(X.Quo(vE18)).Sub(prevMinted)
@@ -180,7 +182,7 @@ func Verif_C02_step_from_inv() {
 			continue
 		}
 		X := s.refCum(j, T).Add(c)
-		verif_assert(st.SequenceId == uint32(j+1), "state points at the period containing T")
+		verif_assert(st.SequenceId == verifSeq(j), "state points at the period containing T")
 		verif_assert(st.AmountMinted.Equal(X.Quo(vE18)), "AmountMinted = trunc(f(T) + carry): independent of the pre-state")
 		verif_assert(verif_dec_rawint(st.RemainderFromPreviousMinter).Equal(c), "carry comes from the previous period only")
 		verif_assert(verif_dec_rawint(st.RemainderToMint).Equal(X.Sub(X.Quo(vE18).Mul(vE18))), "remainder = fraction of f(T)+carry")
